@@ -149,6 +149,16 @@ CLAIMED = {
             "Trusted: Python call syntax; builder->constructor->field feeding computed by def-use. "
             "Not decided: black formatting, pickling, result equality after rebuild.",
             "DESIGN.md 6/C12"),
+    "C03": ("dispatch-table exhaustiveness; CFG dominance (found-or-raise) in the expression actor; sibling-table agreement of every Polars implementation entry with its operator key (method alias table, operator/operand-order match, arity vs constructible arities, when/then/otherwise truth-table evaluation); constant propagation of the join type through the join step; per-column direction flags; guard analysis of the coalesce (ast)",
+            "Structural necessary conditions of Polars/Pandas agreement: every node kind has a Polars step that refuses other kinds; a failed "
+            "expression lookup raises on every path and nothing but the implementation tables supplies the callable; each of ~165 table entries "
+            "calls the Polars primitive / Python operator of the operator it is filed under with operands in order (if_else / where by 12-row "
+            "truth tables); sort and window directions follow `reverse` per column; each of the six join types reaches the Polars join of that "
+            "meaning with correctly paired key lists, and shared columns are coalesced left-first for every type; every step projects to the "
+            "declared columns. Known findings: maximum/minimum null behaviour, full-join key columns.",
+            "Trusted: Polars Expr method names mean what the Polars API documents (frozen alias table); API contracts in sa/facts.py. "
+            "Not decided: numerical agreement of each primitive with numpy/pandas, dtypes, behaviour on the installed Polars version.",
+            "DESIGN.md 6/C03"),
     "C08": ("edge-sensitive may-carry dataflow of scratch columns over the statement CFG (stores under non-operator names vs del/drop/re-selection kills); guard-matched select-after-with_columns; pairwise twin clean-up rule; def-use of select terms from `using` (ast)",
             "Structural necessary conditions of 'the result has exactly the declared columns': no Pandas step returns a frame that may "
             "still carry a column stored under an internal (non-operator) name; Polars steps that add temporaries re-select "
